@@ -40,7 +40,7 @@ func init() {
 		"Definition loop_has_cond : bool := Model.RunLimitTable.loop_has_cond.\n"+
 		"Definition loop_post (step : nat) : nat := Model.RunLimitTable.loop_post step.\n"+
 		"Definition limit_test_before_submit : bool := Model.RunLimitTable.limit_test_before_submit.\n"+
-		"Definition step_limit_hit (dag : bool) (step maxSteps : nat) : bool := Model.RunLimitTable.step_limit_hit dag step maxSteps.\n"+
+		"Definition step_limit_hit (unk : string -> bool) (dag : bool) (step maxSteps : nat) : bool := Model.RunLimitTable.step_limit_hit dag step maxSteps.\n"+
 		"Section Gen.\n  Variable err_code : nat -> N.\n"+
 		"  Definition run_max_steps (dag : bool) (compiled : nat) (opts : list nat) : res nat :=\n"+
 		"    Model.RunLimitTable.run_max_steps err_code dag compiled opts.\nEnd Gen.\n")
@@ -178,6 +178,7 @@ func c01ExtractRunLimit(repo string) (string, string, error) {
 		return "", "", fmt.Errorf("runner.run: main loop does not declare step")
 	}
 	t2 := c01NewTr("runner.run (main loop)")
+	t2.unkOK = true
 	t2.sels["r.dag"] = c01Var{"dag", "bool"}
 	initV, k, err := t2.expr(init.Rhs[0])
 	if err != nil || k != "nat" {
@@ -276,9 +277,9 @@ func c01ExtractRunLimit(repo string) (string, string, error) {
 	fmt.Fprintf(&b, "Definition loop_init : nat := %s.\n", initV)
 	fmt.Fprintf(&b, "Definition loop_has_cond : bool := %s.\n", hasCond)
 	fmt.Fprintf(&b, "Definition loop_post (step : nat) : nat := %s.\n\n", post)
-	b.WriteString("(* the if statement of the loop body that returns ErrExceedMaxSteps; it stands before the first use of the task manager *)\n")
+	b.WriteString("(* the if statement of the loop body that returns ErrExceedMaxSteps; it stands before the first use of the task manager;\n   an operand of its condition that is not recognised appears as (unk \"<text>\") *)\n")
 	fmt.Fprintf(&b, "Definition limit_test_before_submit : bool := %s.\n", before)
-	fmt.Fprintf(&b, "Definition step_limit_hit (dag : bool) (step maxSteps : nat) : bool :=\n  %s.\n\n", limitCond)
+	fmt.Fprintf(&b, "Definition step_limit_hit (unk : string -> bool) (dag : bool) (step maxSteps : nat) : bool :=\n  %s.\n\n", limitCond)
 	b.WriteString("Section Gen.\n  Variable err_code : nat -> N.\n\n")
 	b.WriteString("  (* compiled = r.options.maxRunSteps; opts = the maxRunSteps field of every call option, in order *)\n")
 	fmt.Fprintf(&b, "  Definition run_max_steps (dag : bool) (compiled : nat) (opts : list nat) : res nat :=\n    %s.\nEnd Gen.\n", code)
